@@ -74,6 +74,9 @@ structure Cnt where
   sfail : Nat := 0
   bad : Nat := 0
   other : Nat := 0
+  /-- specification failures printed so far, per operation (the cap on printed `S` lines is per operation: a flood of
+      failures of one op — e.g. the cases of an open known finding — must not hide the first failures of another op) -/
+  sops : List (String × Nat) := []
 
 partial def loop (prop : String) (h : IO.FS.Stream) (c : Cnt) (lineno : Nat) : IO Cnt := do
   let line ← h.getLine
@@ -104,7 +107,9 @@ partial def loop (prop : String) (h : IO.FS.Stream) (c : Cnt) (lineno : Nat) : I
             if foreign then c := { c with other := c.other + 1 }
             else
               c := { c with sfail := c.sfail + 1 }
-              if c.sfail ≤ 200 then IO.println s!"S {lineno} {msg} :: {line}"
+              let seen : Nat := ((c.sops.find? (·.1 == op)).map (·.2)).getD 0
+              c := { c with sops := (op, seen + 1) :: c.sops.filter (·.1 != op) }
+              if seen < 200 then IO.println s!"S {lineno} {msg} :: {line}"
         loop prop h c (lineno + 1)
     | [] => loop prop h c (lineno + 1)
   | _ =>
